@@ -32,7 +32,23 @@ def assumptions(prop):
     return ASSUME.get(prop, ["see DESIGN.md section 5 (trusted base)"])
 
 
-ASSUME = {}
+_BASE_ASSUME = [
+    "the hand-written Lean model mirrors the Rust (checked each run by value/step/trace correspondence on the generated ops; a divergence outside what the generators reach is not seen)",
+    "Lean 4.33 kernel; axioms propext, Classical.choice, Quot.sound",
+    "intrinsic lane semantics of SSE2/AVX2 (executed natively) and of NEON/simd128 (plain-Rust emulation in tools/emulate, Lean instances written from the same documentation)",
+    "usize modelled as unbounded Nat (lengths < 2^63); little endian only",
+]
+ASSUME = {
+    "C05": _BASE_ASSUME + ["hardware faults are observed (guard pages, hook region checks), not modelled; real SSE2/AVX2 vector loads are not traced, only small-lane / emulated-ISA vector loads and hooked raw reads are",
+                           "pointer provenance beyond allocation bounds is not modelled"],
+    "C13": _BASE_ASSUME + ["a step is a tick of the model counter placed where hook H2 ticks in the Rust; wall-clock time, caches and branch prediction are not modelled",
+                           "the executable threshold 16*(n+m)+2000 is a test bound; the proved constants are in Props/C13.lean"],
+    "C15": _BASE_ASSUME + ["atomicity and ordering of AtomicPtr, tearing, data races in unsafe Send/Sync impls are trusted (not expressible in the model); the real runs are fresh-process barrier releases on this 16-core x86_64 host only"],
+    "C17": _BASE_ASSUME + ["the allocator is observed by a counting #[global_allocator] on the calling thread; the model only carries the ownership bookkeeping"],
+    "C09": _BASE_ASSUME + ["configurations exercised: host AVX2, forced SSE2 / fallback via hook H3, emulated NEON and simd128 builds (cfg-rewritten copy of the working tree), alloc-only and +avx2 builds in thorough; big-endian, 16/32-bit usize and the rustc-dep-of-std feature are not covered"],
+}
+for _p in ["C%02d" % i for i in range(1, 20)]:
+    ASSUME.setdefault(_p, _BASE_ASSUME)
 
 
 def fact_failures(prop, ex):
